@@ -370,8 +370,8 @@ Definition in_ty (t : ity) (v : Z) : bool := (tmin t <=? v) && (v <=? tmax t).
 Definition cands (v : vty) : list Z :=
   match v with
   | VI t => map (encode t) (filter (in_ty t)
-              [tmin t; tmin t + 1; -128; -100; -2; -1; 0; 1; 2; 3; 7; 100; 127; 128; 200; 255; 256; 300; 32767; 32768;
-               65535; 65536; 2147483647; 2147483648; 4294967295; tmax t / 2 + 1; tmax t - 1; tmax t])
+              [100; 127; 1; 2; 3; 7; 0; -1; -2; -100; -128; 128; 200; 255; 256; 300; 32767; 32768; 65535; 65536;
+               2147483647; 2147483648; 4294967295; tmin t; tmin t + 1; tmax t / 2 + 1; tmax t - 1; tmax t])
   | VB => [0; 1]
   end.
 Definition cand_args (k : key) : list (list Z) :=
@@ -431,7 +431,7 @@ def search(backend):
         k = keys[int(idx)]; kind = int(kind); g = int(g)
         if kind == -1:
             res.append(dict(key=key_name(k), operands=None, expected=None, got=None, program=None, code=tbl[k],
-                            what="shape not recognised; no disagreeing boundary operand found"))
+                            what="%s: shape not recognised; no disagreeing boundary operand found" % key_name(k)))
             continue
         vals = lst(vals)
         got = "trap" if kind == 0 else (g if kind == 1 else "non-canonical register %#x" % g)
